@@ -137,8 +137,16 @@ def run(tier="quick", seed=0, arg=None):
     npairs = 400 if tier == "quick" else 4000
     G = [(t, m) for t, m in pool if t in set(group_texts())]
     group_pairs = [(x, y) for x in G for y in G if x[0].split()[0] == y[0].split()[0]]
+    # every group against every atom on the same variable (both orders): partial overlaps of ==/!= groups with in / not in / == / != atoms
+    atom_set = {a for a in atoms(reversed_too=False)}
+    for g in G:
+        var = g[0].split()[0]
+        for t, m in pool:
+            if t in atom_set and t.split()[0] == var:
+                group_pairs.append((g, (t, m)))
+                group_pairs.append(((t, m), g))
     if tier == "quick":
-        group_pairs = group_pairs[:: 3]
+        group_pairs = group_pairs[seed % 3:: 3]
     for i in range(npairs + len(group_pairs)):
         (ta, a), (tb, b) = group_pairs[i - npairs] if i >= npairs else (rng.choice(pool), rng.choice(pool))
         va, vb = vec(a), vec(b)
